@@ -783,3 +783,46 @@ func init() {
 	reg("math/rand.Uint32", rnd(32, nil, false))
 	reg("math/rand.Uint64", rnd(64, nil, false))
 }
+
+func init() {
+	// substring search (assembly in the runtime): first index of sep in s, or -1
+	index := func(ex *Exec, s, sep []Value) Value {
+		tb := ex.tb
+		res := tb.Const(64, ^uint64(0))
+		if len(sep) == 0 {
+			return tb.Const(64, 0)
+		}
+		for i := len(s) - len(sep); i >= 0; i-- {
+			m := tb.True
+			for j := range sep {
+				m = tb.BAnd(m, tb.Eq(s[i+j].(*term.T), sep[j].(*term.T)))
+				if m.IsFalse() {
+					break
+				}
+			}
+			res = tb.Ite(m, tb.Const(64, uint64(i)), res)
+		}
+		return res
+	}
+	reg("internal/bytealg.Index", func(ex *Exec, caller *frame, fn *ssa.Function, args []Value) Value {
+		return index(ex, args[0].(Slice).V, args[1].(Slice).V)
+	})
+	reg("internal/bytealg.IndexString", func(ex *Exec, caller *frame, fn *ssa.Function, args []Value) Value {
+		return index(ex, args[0].(Str).B, args[1].(Str).B)
+	})
+	// crypto/rand.Int(reader, max): an arbitrary value below max (max's low word must be concrete)
+	reg("crypto/rand.Int", func(ex *Exec, caller *frame, fn *ssa.Function, args []Value) Value {
+		tb := ex.tb
+		maxp := args[1].(*Value)
+		abs := (*maxp).(Struct)[1].(Slice).V
+		x := ex.newDraw(ex.occName("randint"), 64)
+		if len(abs) == 1 {
+			ex.addPC(tb.Cmp(term.OUlt, x, abs[0].(*term.T)))
+		} else {
+			panic(ex.unsupported("crypto/rand.Int with multi-word max"))
+		}
+		p := new(Value)
+		*p = Struct{tb.False, Slice{V: []Value{x}}}
+		return Tuple{p, Iface{}}
+	})
+}
